@@ -346,7 +346,7 @@ type slMicro struct {
 	Name  string
 	Pre   bool // key 30 present initially (height given by PreLevel)
 	PreLv int
-	Progs []string // I<level> insert 30 with that level, D delete 30, L lookup 30, N insert neighbour 29, M delete neighbour 20
+	Progs []string // I<level> insert 30 with that level, D delete 30, L lookup 30, N insert neighbour 29, M delete neighbour 20, S insert successor 31, T lookup 31
 }
 
 var slMicros = []slMicro{
@@ -360,6 +360,8 @@ var slMicros = []slMicro{
 	{"delete;insert(h1) || delete", true, 1, []string{"DI1", "D"}},
 	{"delete || delete predecessor", true, 2, []string{"D", "M"}},
 	{"insert(h2);delete || insert(h1)", false, 0, []string{"I2D", "I1"}},
+	{"delete(h0 node) || insert successor", true, 0, []string{"D", "S"}},
+	{"delete(h1 node) || insert successor || lookup successor", true, 1, []string{"D", "S", "T"}},
 }
 
 // c13Micro explores one micro-scenario. judge selects whose oracles count:
@@ -477,6 +479,17 @@ func c13Micro(c *rt.C, sc slMicro, maxSched, extra int, judge string) {
 						hmu.Lock()
 						others[29] = true
 						hmu.Unlock()
+					case 'S':
+						key30 = false
+						if !s.Insert(e.intItem(31), skiplist.CompareInt, b, &s.Stats) {
+							panic("successor insert failed")
+						}
+						hmu.Lock()
+						others[31] = true
+						hmu.Unlock()
+					case 'T':
+						key30 = false
+						s.Lookup(e.intItem(31), skiplist.CompareInt, b, &s.Stats)
 					case 'M':
 						key30 = false
 						var ok bool
@@ -600,14 +613,14 @@ func init() {
 	rt.Register(&rt.Prop{
 		ID: "C13", Level: "exploration",
 		Technique: "runtime monitoring: client-boundary histories checked with porcupine against an ordered-set model with node identities; micro-scenarios enumerated by the serialized controller over the skiplist's CAS hook points; structure walk at quiescence",
-		Rule: "cases 0..9: micro-scenarios (insert‖insert, insert‖delete, delete‖delete, with lookups, neighbours and node heights 0-2) explored depth-first by re-execution under the serialized controller with every hook point before a CAS in Insert4/softDelete/helpDelete as scheduling point (bounded, then seeded random); each schedule's results must be linearizable and the final scan exact. " +
+		Rule: "cases 0..11: micro-scenarios (insert‖insert, insert‖delete, delete‖delete, with lookups, neighbours and node heights 0-2) explored depth-first by re-execution under the serialized controller with every hook point before a CAS in Insert4/softDelete/helpDelete as scheduling point (bounded, then seeded random); each schedule's results must be linearizable and the final scan exact. " +
 			"Other cases: 2-16 goroutines issue Insert2/Insert3(forced level)/Delete/DeleteNode(handle, Go memory)/Lookup on 1-16 int keys in chained phases; per-key histories + post-quiescence scan are checked with porcupine (model state = identity of the key's current node, so 'a given node is deleted successfully by exactly one caller' is decided); Go-managed, poison and pageguard memory (user-managed deletes go through lookup + DeleteNode2 + FlushSession as nitro does). evaluations = schedules + histories; distinct = interleaving signatures",
 		Assumptions: []string{"in user-managed mode node handles are only used under the accessor token they were obtained with", "porcupine v1.3.0 trusted as checker"},
 		Cases: func(t string) int {
 			if t == "thorough" {
-				return 10 + 1200
+				return len(slMicros) + 1200
 			}
-			return 10 + 54
+			return len(slMicros) + 54
 		},
 		Batch:         func(t string) int { return 4 },
 		Procs:         16,
